@@ -170,6 +170,8 @@ func (ex *Exec) amtOf(v Val, d *smt.Term) *smt.Term {
 		return smt.Ite(smt.Eq(d, f[0].(*smt.Term)), f[1].(*smt.Term), smt.IntC(0))
 	case *scaledCoins:
 		return smt.Mul(c.M, ex.amtOf(c.C, d))
+	case *fnCoins:
+		return c.F(ex.amtOf(c.C, d))
 	case *minCoins:
 		return smt.Min(ex.amtOf(c.A, d), ex.amtOf(c.B, d))
 	case *mergedV:
@@ -208,6 +210,8 @@ func (ex *Exec) support(v Val) (ds []*smt.Term, finite bool) {
 		f := ex.forceFields(c)
 		ds = append(ds, f[0].(*smt.Term))
 	case *scaledCoins:
+		return ex.support(c.C)
+	case *fnCoins:
 		return ex.support(c.C)
 	case *minCoins:
 		d1, f1 := ex.support(c.A)
